@@ -141,6 +141,12 @@ LOOSE_KINDS = ("Str", "Int", "Float", "Port", "IPv4", "Net", "Host", "Url", "Log
 
 def shape(name, leaf):
     """-> schema spec with the catalogue leaf `leaf` at the positions the shape defines"""
+    if name.endswith("+late"):
+        # the same shape, but every field of the leaf kind joins the schema only after the schema has been used
+        # (a configuration built, rendered, loaded; fields enumerated; parser and stub generated)
+        spec = shape(name[:-5], leaf)
+        spec["late_leaf"] = catalogue()[leaf][0]
+        return spec
     if name.endswith("+env"):
         # the same shape under a schema with an environment prefix; every derived variable is exported *empty*,
         # which must behave exactly as if no binding existed
@@ -212,7 +218,11 @@ class Built:
         self.named = {}
         self.issued = {}
         self.counters = collections.Counter()
+        self.postponed = []
+        self.late_leaf = spec.get("late_leaf")
         self.schema = self._schema(spec, cc)
+        if self.late_leaf is not None:
+            self._use_then_grow(cc)
         if spec.get("env"):
             for name in env_names(self.schema):
                 os.environ[name] = ""
@@ -247,9 +257,38 @@ class Built:
                 it = f["item"]
                 item = self._ctype(it, cc) if it["k"] == "CType" else self._schema(it, cc)
                 setattr(s, key, cc.ListField(item, **{a: V.dec(b) for a, b in f.get("o", {}).items()}))
+            elif self.late_leaf is not None and f == self.late_leaf:
+                self.postponed.append((s, key, f))
             else:
                 setattr(s, key, self._leaf(f))
         return s
+
+    def _use_then_grow(self, cc):
+        import contextlib, io
+        early = self.schema()
+        early.to_tree()
+        early.to_tree(virtual=True, sensitive_mask="*")
+        try:
+            early.loads(early.dumps("json"), "json")
+        except Exception:  # noqa
+            pass
+        try:
+            early.validate(collect_errors=True)
+        except Exception:  # noqa
+            pass
+        cc.get_all_fields(self.schema)
+        with contextlib.redirect_stdout(io.StringIO()):
+            try:
+                cc.generate_argparse_parser(self.schema, add_help=False)
+                cc.generate_stub(self.schema, "Early")
+            except Exception:  # noqa
+                pass
+        for n, (sch, key, f) in enumerate(self.postponed):
+            if n % 2:
+                sch[key] = self._leaf(f)          # item syntax
+            else:
+                setattr(sch, key, self._leaf(f))
+        self.postponed = []
 
     def _leaf(self, f):
         import cincoconfig as cc
